@@ -76,6 +76,12 @@ def counter_plain_sum(ctx, sites):
 
 
 def three_opt_reconnection(ctx, rid):
+    from . import formulas as _fm
+    _fm.three_opt_details(ctx, rid)
+    _three_opt_reconnection(ctx, rid)
+
+
+def _three_opt_reconnection(ctx, rid):
     """3-opt on a cycle removes the transfers (i,i+1), (j,j+1), (k,k+1) and adds (i,j+1), (j,k+1), (k,i+1): decided on
     which of the parameters i, j, k each depot operand of the six distance look-ups derives from"""
     key = TCYCLE + "::three_opt"
@@ -212,6 +218,10 @@ def rules(ctx):
     counter_plain_sum(ctx, sites)
     neighbour_wiring(ctx, "R3")
     three_opt_reconnection(ctx, "R3")
+    from . import formulas
+    formulas.transition_formulas(ctx, "R3")
+    formulas.transition_total_signs(ctx, "R3")
+    formulas.three_opt_indices(ctx, "R3")
     inf_conversions(ctx, "R4")
     # R5: optimisation never worsens
     objective.level_order(ctx, "R5.transition-objective", TLS + "::transition_objective",
